@@ -188,6 +188,16 @@ def run(pid, cfg, tier, seed, replay, ck):
             problems.append(f"runner exit status {r['exit']}: " + text[-600:])
         if persistent:
             problems.append(f"{len(persistent)} unexpected failure(s) persisting over 3 isolated re-runs")
+        # Re-running in isolation is meant to set aside the rare schedule-dependent failure of the real
+        # stacks; it must not hide failures that depend on what ran BEFORE in the same peer process
+        # (state carried from one call to the next: caches, pools, reused connections) - those vanish
+        # in a small isolated re-run as well, but they come in numbers.  More than a handful of
+        # failures that vanish (F22 signatures aside) is reported.
+        vanished = [n for n in r["failed_names"] if n not in persistent and n not in f22
+                    and not ("HTTPVersion:1/Protocol:PROTOCOL_GRPC_WEB/" in n and "(grpc server impl)" in n)]
+        if len(vanished) > max(5, (r["total"] or 0) // 100):
+            problems.append(f"{len(vanished)} unexpected failure(s) of the complete run vanish when the failing permutations are re-run "
+                            f"in isolation (first: {vanished[:3]}): the failures depend on what the same peer process ran before")
         rec = {k: r[k] for k in ("run", "exit", "computed", "total", "passed", "failed", "expected_failures", "could_not_run", "known_patterns", "known_matched", "wall_s")}
         rec["transient_failures"] = [n for n in r["failed_names"] if n not in persistent and n not in f22]
         rec["known_finding_F22"] = f22
